@@ -1,6 +1,7 @@
 import AcraModel.KeystoreSec.Path
 import AcraModel.KeystoreSec.Der
 import Driver.C18
+import Driver.C07Access
 import AcraModel.KeystoreSec.WriteLog
 import AcraModel.Crypto.Shim
 /-! Driver ops for C07. -/
@@ -20,6 +21,7 @@ def handle (op : String) (args : List String) : Option String :=
       let a ← ofHex a; let b ← ofHex b
       pure (match Path.rel a b with | some r => "ok " ++ hexOf r | none => "err")
   | "ospath", [root, p] => do let root ← ofHex root; let p ← ofHex p; pure (outHex (Path.osPath root p))
+  | "importpath", [root, p] => do let root ← ofHex root; let p ← ofHex p; pure (outHex (Path.importPath root p))
   | "ospath.pinned", [root, p] => do let root ← ofHex root; let p ← ofHex p; pure (outHex (Path.osPathPinned root p))
   | "ringfile", master :: sigKey :: time :: ring :: nonces => do
       -- nonces: `<ctx hex>=<nonce hex>` pairs, one per encrypted field
@@ -41,6 +43,6 @@ def handle (op : String) (args : List String) : Option String :=
       if rs.length ≠ n then none
       let rs ← rs.mapM Driver.C18.parseRing
       pure (hexOf (Der.derEncryptedKeys rs))
-  | op, args => Driver.V1Keys.handleC07 op args
+  | op, args => (Driver.C07Access.handle op args).orElse fun _ => Driver.V1Keys.handleC07 op args
 
 end Driver.C07
